@@ -175,7 +175,7 @@ func ruleC18_1(c *Ctx) {
 								}
 							}
 						}
-						okElems = okElems && reaches(e.Block(), st.Block())
+						okElems = okElems && reaches(e.Block(), st.Block()) && everyIteration(e.Addr.(*ssa.IndexAddr).Index, e)
 					}
 					c.check(okLen && okElems, R, fn, "list "+o+" replaced by a fresh list filled element by element from itself", st.Pos(), "make(len("+o+")); fresh[i] = rewritten copy of "+o+"[i] for every i", "layout."+strings.TrimPrefix(o, "p0.")+" is replaced by a new list that is not provably the element-wise rewritten copy of the old one (length, index or element source differ)")
 					continue
@@ -195,6 +195,7 @@ func ruleC18_1(c *Ctx) {
 			c.check(okVal, R, fn, "assignment to "+o, st.Pos(), helper+"(replacer, same field of the same element)", "assigned value is "+detail+", not the substitution of this very field")
 			// whole-slice range-index loop
 			c.check(wholeSliceIndex(st.Addr), R, fn, "loop over the whole list for "+o, st.Pos(), "element index is the range-index induction variable", "the element index is not the induction variable of a range over the whole list")
+			c.check(everyIteration(findIndex(st.Addr), st), R, fn, "assignment to "+o+" happens for every element", st.Pos(), "the assignment lies on every path through the loop body", "the field is not assigned for every element: some steps / inspections are skipped (their markers stay unsubstituted)")
 		}
 	}
 	// fresh lists that are filled but never become part of the result are ignored; fresh lists stored into the layout
@@ -241,6 +242,24 @@ func findIndex(v ssa.Value) ssa.Value {
 		}
 	}
 	return nil
+}
+
+// everyIteration: instruction in lies on every path through the body of the range loop whose induction variable is idx.
+func everyIteration(idx ssa.Value, in ssa.Instruction) bool {
+	bo, ok := idx.(*ssa.BinOp)
+	if !ok {
+		return false
+	}
+	ph, ok := bo.X.(*ssa.Phi)
+	if !ok || ph.Comment != "rangeindex" {
+		return false
+	}
+	h := ph.Block()
+	if len(h.Succs) != 2 {
+		return false
+	}
+	entry := h.Succs[0]
+	return in.Block() == entry || postDominatesSimple(in.Block(), entry)
 }
 
 // isRangeIndex: idx is the induction variable of a `for i := range x` loop.
